@@ -278,6 +278,11 @@ class Check:
         self.extra = {}
         self.checker_cmd = f'./check {pid} --{tier}'
         self.known = [k for k in load_known() if k.get('property') == pid and k.get('status') == 'known']
+        rd = os.path.join(VERIF, 'replays')
+        if os.path.isdir(rd):
+            for f in os.listdir(rd):
+                if f.startswith(pid + '-'):
+                    os.remove(os.path.join(rd, f))
         self.broken = []           # obligations / correspondences that no longer check: (name, detail, disagreeing cases)
 
     # ---- obligations
